@@ -21,6 +21,8 @@ LIB = {
     "xmb.py": "B1 = 'xmb.B1'\nA1 = 'xmb.A1'\n__all__ = ['B1']\n",
     "xm.py": "M1 = 'xm.M1'\n",
     "xmaa.py": "A0 = 'xmaa.A0'\nA1 = 'xmaa.A1'\n",
+    "xmid.py": "from xma import *\nMID = 'xmid.MID'\n",
+    "xpkt/xq1.py": "V1 = 'xpkt.xq1.V1'\n", "xpkt/xq2.py": "V2 = 'xpkt.xq2.V2'\n",
     "xpk/__init__.py": "P0 = 'xpk.P0'\n",
     "xpk/xmc.py": "C1 = 'xpk.xmc.C1'\nC2 = 'xpk.xmc.C2'\n",
     "xpk/xsub/__init__.py": "",
@@ -63,6 +65,11 @@ FORMS = [
     ("from xmb import A1", "A1", "root"),
     ("import xm", "xm.M1", "root"),
     ("from xmaa import *", "A0", "root"),
+    # a star import of a module that itself star-imports: the used name originates two modules away
+    ("from xmid import *", "A2", "root"),
+    # statements of a package's __init__.py that import the package's own sub-modules
+    ("from . import xq1", "xq1.V1", "init"), ("from xpkt import xq1", "xq1.V1", "init"), ("from .xq1 import V1", "V1", "init"),
+    ("import xpkt.xq2", "xpkt.xq2.V2", "init"), ("from . import xq1, xq2", "xq2.V2", "init"),
 ]
 SPECIAL_USAGES = {"class-keyword": ("Meta", "class Z%d(metaclass=%s):\n    pass\n\n\nprint(type(Z%d).__name__)"),
                   "class-base": ("Base", "class Z%d(%s):\n    pass\n\n\nprint(Z%d.__mro__[1].__name__)"),
@@ -76,6 +83,7 @@ PREFS = [{}, {"split_imports": True}, {"pull_imports_to_top": False}, {"sort_imp
 
 # the forms added last are paired only with the statements they can interact with
 PARTNERS = {
+    "from xmid import *": ["from xma import A1", "from xma import *", "import xma", "from xmb import A1"],
     "import xpk": ["import xpk.xmc", "import xpk.xsub.xme", "import xpk.xmc as xc", "from xpk import xmc", "from xpk.xmc import C1", "import xma"],
     "import xpk.xmc as xc": ["import xpk", "import xpk.xmc", "from xpk import xmc", "import xma as xa", "from xpk.xmc import C1"],
     "from xmb import A1": ["from xma import A1", "from xma import A1 as z1", "from xma import A1, A2", "from xma import (A1,\n    A2)", "from xma import *",
@@ -131,8 +139,8 @@ def build_target(stmts, usages, header):
 class C07(Check):
     pid = "C07"
     level = "exploration"
-    rule = ("cases = (target location in {project root, inside package xpk, inside sub-package xpk.xsub}, header in {none, docstring+comment}, block of <=2 (3) "
-            "import statements over 30 forms, usage of each in {unused, module level, inside a function, only in __all__; for two forms also class keyword (metaclass=), base class, default argument, decorator}); "
+    rule = ("cases = (target location in {project root, inside package xpk, inside sub-package xpk.xsub, a package's own __init__.py}, header in {none, docstring+comment}, block of <=2 (3) "
+            "import statements over 36 forms, usage of each in {unused, module level, inside a function, only in __all__; for two forms also class keyword (metaclass=), base class, default argument, decorator}); "
             "evaluations = one ImportOrganizer action per (case, action in 5, preference set in 5 (thorough) / default + split "
             "(quick)); oracle per performed action: modules compile; the target and a star-importing client print the same; a second "
             "application changes nothing; non-trivial = actions that changed the source; distinct by (source, action, prefs)")
@@ -146,10 +154,10 @@ class C07(Check):
     def cases(self, tier):
         out = []
         n = 2 if tier == "quick" else 3
-        for where in ("root", "pkg", "sub"):
-            forms = [i for i, f in enumerate(FORMS) if f[2] == "root" or (where == "pkg" and f[2] == "pkg") or (where == "sub" and f[2] == "sub")]
-            if where == "sub":
-                forms = [i for i in forms if FORMS[i][2] == "sub" or FORMS[i][0] in ("import xma", "from xma import A1")]
+        for where in ("root", "pkg", "sub", "init"):
+            forms = [i for i, f in enumerate(FORMS) if f[2] == "root" or (where == "pkg" and f[2] == "pkg") or (where == "sub" and f[2] == "sub") or (where == "init" and f[2] == "init")]
+            if where in ("sub", "init"):
+                forms = [i for i in forms if FORMS[i][2] == where or FORMS[i][0] in ("import xma", "from xma import A1")]
             for k in range(1, n + 1):
                 for stmts in itertools.permutations(forms, k):
                     if k >= 2 and not partners_ok(stmts):
@@ -183,8 +191,8 @@ class C07(Check):
         res = {"n": 0, "nt": [], "out": {}, "mech": {}, "fails": [], "refused": 0, "passfeat": []}
         header = ['', '"""Doc string."""\n# a comment\n'][case["header"]]
         src = build_target(case["stmts"], case["usages"], header)
-        tpath = {"root": "xt.py", "pkg": "xpk/xt.py", "sub": "xpk/xsub/xt.py"}[case["where"]]
-        tmod = {"root": "xt", "pkg": "xpk.xt", "sub": "xpk.xsub.xt"}[case["where"]]
+        tpath = {"root": "xt.py", "pkg": "xpk/xt.py", "sub": "xpk/xsub/xt.py", "init": "xpkt/__init__.py"}[case["where"]]
+        tmod = {"root": "xt", "pkg": "xpk.xt", "sub": "xpk.xsub.xt", "init": "xpkt"}[case["where"]]
         if "__all__" in src:
             # names exported through __all__ must stay available to a star-importing client
             client = "from %s import *\nprint(sorted((k, v) for k, v in globals().items() if not k.startswith('_') and isinstance(v, str)))\n" % tmod
@@ -211,7 +219,8 @@ class C07(Check):
                     "from-module" if st in ("from xpk import xmc",) else "from" if st.startswith("from") else
                     "import-as" if " as " in st else "import-dotted" if "." in st else "import-multi" if "," in st else "import")
             feats0 += ["form:" + kind, "form:%s/%s" % (kind, u), "stmt:" + st.replace("\n", " ")]
-            if st in ("from xpk import xmc", "from . import xmc", "from .xsub import xme", "from . import xme", "from .. import xmc"):
+            if st in ("from xpk import xmc", "from . import xmc", "from .xsub import xme", "from . import xme", "from .. import xmc",
+                      "from . import xq1", "from xpkt import xq1", "from . import xq1, xq2"):
                 feats0.append("from-import-of-a-submodule")
             if st.startswith("from") and u == "all-only":
                 feats0.append("from-import-used-only-in-__all__")
@@ -221,6 +230,8 @@ class C07(Check):
             st = FORMS[i][0]
             if st == "from xma import *":
                 bound.append(("star", {"A1", "A2"}))
+            elif st == "from xmid import *":
+                bound.append(("star", {"A1", "A2", "MID"}))
             elif st == "from xmaa import *":
                 bound.append(("star-using-another-name", {"A0", "A1"}))
             elif st == "from xmb import *":
